@@ -638,7 +638,7 @@ class Painter(object):
         region = gfx.flood_region(before, w, h, rect, seed, b)
         inside_rect = rect[0] <= seed[0] <= rect[2] and rect[1] <= seed[1] <= rect[3]
         on_border = inside_rect and before[seed[1] * w + seed[0]] == b
-        key = (g.mode['label'], view, V, seed, f, b, hash(before[V[1] * w:(V[3] + 1) * w]))
+        key = (g.mode['label'], view, V, seed, f, b, case['stmt'], hash(before[V[1] * w:(V[3] + 1) * w]))
         res.case(key, nontrivial=bool(region) or on_border or not inside_rect)
         res.count('paints')
         if code:
